@@ -223,7 +223,7 @@ struct WkdRun {
         sys.params.alloc(R.sz(JV_SZ_WK_PARAMS)); if (sys.l) sys.harr.alloc((size_t) sys.l * R.sz(JV_SZ_G1), 0xEE);
         sys.msk.alloc(R.sz(JV_SZ_WK_MSK));
         R.jv_wk_params_init(sys.params, sys.harr.p, sys.l);
-        call_begin((uint64_t) plan.c("setup_seed", 1)); env.stream.limit += 4096;
+        call_begin((uint64_t) plan.c("setup_seed", 1)); env.stream.limit += 4096 + 16 * (size_t) std::max<int64_t>(0, plan.c("l", 0));   // setup draws l + 4 generators, about four requests each
         R.jv_wk_setup(view, sys.params, sys.msk, sys.l, sys.sig, jv_rand_cb);
         sys.alpha = drawn_scalar("setup");
         sys.extract(w);
